@@ -81,6 +81,11 @@ func preCall(i *interpreter, caller *frame, callpos token.Pos, fn *ssa.Function,
 		if ext := externals[fn.String()]; ext != nil {
 			return nil, false
 		}
+		if i.ex != nil && i.ex.CaptureLogs && strings.HasSuffix(p.Pkg.Path(), "sirupsen/logrus") {
+			for _, a := range args {
+				collectLogBytes(i.ex, a, 0)
+			}
+		}
 		return noopResult(fn.Signature), true
 	}
 	return nil, false
@@ -575,4 +580,44 @@ func (i *interpreter) globalCell(g *ssa.Global) *value {
 	cell := zero(mustDeref(g.Type()))
 	i.globals[g] = &cell
 	return &cell
+}
+
+
+// collectLogBytes records every string / byte slice reachable from a value handed to the logger (message, field
+// values, variadic arguments). Values that would need a method call to be rendered (errors, Stringers) are skipped.
+func collectLogBytes(e *Explorer, v value, depth int) {
+	if depth > 3 {
+		return
+	}
+	switch x := v.(type) {
+	case string:
+		if len(x) > 0 {
+			bs, _ := strBytes(x)
+			e.logSink = append(e.logSink, bs)
+		}
+	case symstr:
+		e.logSink = append(e.logSink, append([]value{}, x.bytes()...))
+	case iface:
+		collectLogBytes(e, x.v, depth+1)
+	case []value:
+		allBytes := len(x) > 0
+		for _, b := range x {
+			switch b := b.(type) {
+			case byte:
+			case sym:
+				if b.t.W != 8 {
+					allBytes = false
+				}
+			default:
+				allBytes = false
+			}
+		}
+		if allBytes {
+			e.logSink = append(e.logSink, append([]value{}, x...))
+			return
+		}
+		for _, el := range x {
+			collectLogBytes(e, el, depth+1)
+		}
+	}
 }
